@@ -615,7 +615,18 @@ def probe_terncond():
     return None   # (the value route is shadowed by consteval-operators-missing while that is open)
 
 
+def probe_strnest():
+    import logging
+    logging.disable(logging.CRITICAL)
+    for src in ('struct M { char s[3]; } g = {"ab"};', 'char a[2][3] = {"ab", "cd"};'):
+        res = ppci_vars(src, "x86_64")
+        if res[0] == "internal":
+            return "`%s` -> %s [%s]" % (src, res[2], res[1])
+    return None
+
+
 PROBES = {
+    "string-literal-for-nested-char-array": probe_strnest,
     "sizeof-result-is-signed-long": lambda: _first(("unsigned long g = (sizeof(int) - 5) >> 60;", {"g": 15})),
     "equality-parsed-at-relational-precedence": probe_eqprec,
     "ternary-condition-converted-to-int": probe_terncond,
